@@ -221,8 +221,8 @@ defvjp(anp.angle, lambda ans, x: lambda g: match_complex(x, g * anp.conj(x * 1j)
 defvjp(
     anp.where,
     None,
-    lambda ans, c, x=None, y=None: lambda g: anp.where(c, g, anp.zeros(g.shape)),
-    lambda ans, c, x=None, y=None: lambda g: anp.where(c, anp.zeros(g.shape), g),
+    lambda ans, c, x=None, y=None: unbroadcast_f(x, lambda g: anp.where(c, g, anp.zeros(g.shape))),
+    lambda ans, c, x=None, y=None: unbroadcast_f(y, lambda g: anp.where(c, anp.zeros(g.shape), g)),
 )
 defvjp(
     anp.cross,
